@@ -77,7 +77,7 @@ def lifecycle(case):
     if case.get('spelled') == 'relative':
         # a relative directory name; the process changes its working directory later on ('chdir' steps)
         os.chdir(root)
-        spelled = d.name
+        spelled = d.name if len(case['steps']) % 2 == 0 else Path(d.name)  # as str or as pathlib.Path
     calls = {}
     counter = itertools.count(1)
 
